@@ -13,7 +13,8 @@ for f in os.listdir(src):
     p = os.path.join(src, f)
     if os.path.isfile(p) and os.path.getsize(p) < 2_000_000:
         shutil.copy(p, os.path.join(dst, f))
-vlog = open("/tmp/mut/verify_%s.log" % os.path.basename(wt)).read() if os.path.exists("/tmp/mut/verify_%s.log" % os.path.basename(wt)) else ""
+vpath = os.environ.get("VERIFY_LOG", "/tmp/mut/verify_%s.log" % os.path.basename(wt))
+vlog = open(vpath).read() if os.path.exists(vpath) else ""
 meta = {"property": notes.get("property"), "summary": notes.get("summary"), "needs_to_manifest": notes.get("needs"),
         "demo_build_and_run": notes.get("demo_build_and_run"),
         "confirmed_by_us": {"how": "tools/verify_mutation.sh in a scratch worktree: demo exits 0 on the original, ctest passes (11/11) with the change, demo exits non-zero with the change",
